@@ -165,6 +165,19 @@ class Model:
             out.append(res)
         return out
 
+    def run_cho(self, cases):
+        lines = ['cho %d %s' % (self.idx[c['type']], ' '.join(self.enc_op(o) for o in c['ops'])) for c in cases]
+        out = []
+        for l, c in zip(self.raw(lines), cases):
+            res = []
+            if c['ops']:
+                for part in l.split(' | '):
+                    e, o, u, r = part.split(';')
+                    res.append({'st': e, 'pr': False, 'ord': [int(x) for x in o.split(',') if x], 'uno': [int(x) for x in u.split(',') if x],
+                                'req': ['<one of the alternatives>' if x == '1' else self.name_of[int(x)] for x in r[1:-1].split(',') if x]})
+            out.append(res)
+        return out
+
     def run_bag(self, cases):
         lines = ['bag %d %s' % (self.idx[c['type']], ' '.join(self.enc_op(o) for o in c['ops'])) for c in cases]
         out = []
